@@ -263,9 +263,10 @@ def handlePcvOps : Handler := fun inp out => do
   let gAddOut ← decOpRes out "addOutput"
   let gPcev ← decOpRes out "pcev"
   let gBal ← (← arrField out "balances").mapM decBal
+  let gJsonBal ← (← arrField out "jsonBalances").mapM decBal
   let unchanged := match out.getObjVal? "aUnchanged" with | .ok (.bool b) => b | _ => false
   let agree := gSub == mSub && gMerge == mMerge && gAddIn == mAddIn && gAddOut == mAddOut && gPcev == mPcev &&
-    gBal == mBal
+    gBal == mBal && gJsonBal == mBal
   -- properties on the real output: subtract then re-apply gives the receiver back; receiver not mutated
   let subOk := match gSub with
     | .error _ => true
